@@ -957,6 +957,7 @@ def generate_request_object(
     service: wrappers.Service,
     message: wrappers.MessageType,
     field_name_prefix: str = "",
+    _enclosing: tuple = (),
 ):
     """Generate dummy input for a given message.
 
@@ -1007,6 +1008,10 @@ def generate_request_object(
                 field_value = enum_value
 
             request.append({"field": field_name, "value": field_value})
+        elif field.type in _enclosing or field.type == message:
+            # A required field of an enclosing message's own type: stop here,
+            # as `Field.mock_value` does, instead of recursing forever.
+            continue
         else:
             # This is a message type, recurse
             # TODO(busunkim):  Some real world APIs have
@@ -1018,6 +1023,7 @@ def generate_request_object(
                 service,
                 field.type,
                 field_name_prefix=field_name,
+                _enclosing=_enclosing + (message,),
             )
 
     return request
